@@ -8,6 +8,7 @@ import (
 	"path/filepath"
 	"strings"
 	"syscall"
+	"unicode/utf8"
 
 	"github.com/moby/patternmatcher"
 	"github.com/pkg/errors"
@@ -106,6 +107,15 @@ func NewFilterFS(fs FS, opt *FilterOpt) (FS, error) {
 	if filepath.Separator != '\\' {
 		patternChars += `\`
 	}
+	// plainPrefix reports whether a pattern, apart from one trailing glob,
+	// is a path that the matcher reads byte for byte, so that directories
+	// can be pruned by comparing them with its text. The expression scanner
+	// of the matcher drops a leading byte order mark and replaces invalid
+	// UTF-8: such a pattern does not match the text it spells.
+	plainPrefix := func(p *patternmatcher.Pattern) bool {
+		s := patternWithoutTrailingGlob(p)
+		return !strings.ContainsAny(s, patternChars) && !strings.HasPrefix(s, "\ufeff") && utf8.ValidString(s)
+	}
 
 	var (
 		includeMatcher              *patternmatcher.PatternMatcher
@@ -122,7 +132,7 @@ func NewFilterFS(fs FS, opt *FilterOpt) (FS, error) {
 		}
 
 		for _, p := range includeMatcher.Patterns() {
-			if !p.Exclusion() && strings.ContainsAny(patternWithoutTrailingGlob(p), patternChars) {
+			if !p.Exclusion() && !plainPrefix(p) {
 				onlyPrefixIncludes = false
 				break
 			}
@@ -137,7 +147,7 @@ func NewFilterFS(fs FS, opt *FilterOpt) (FS, error) {
 		}
 
 		for _, p := range excludeMatcher.Patterns() {
-			if p.Exclusion() && strings.ContainsAny(patternWithoutTrailingGlob(p), patternChars) {
+			if p.Exclusion() && !plainPrefix(p) {
 				onlyPrefixExcludeExceptions = false
 				break
 			}
